@@ -1,6 +1,10 @@
 package chainh
 
 import (
+	"sync/atomic"
+	"net/http/httptest"
+	"net/http"
+	"io"
 	"bufio"
 	"encoding/json"
 	"fmt"
@@ -134,6 +138,9 @@ func (d *dispatchRepo) GetAllTips() ([]*domains.BlockHeader, error) { return d.v
 
 var _ = reflect.TypeOf
 
+var posts atomic.Int64
+var hookURL string
+
 func opConc() error {
 	seed := envInt("VERIF_SEED", 1)
 	nsc := int(envInt("VERIF_SCENARIOS", 50))
@@ -143,6 +150,20 @@ func opConc() error {
 	s.Decorate = func(h repository.Headers) repository.Headers { disp.Headers = h; return disp }
 	if err := s.Open(); err != nil {
 		return err
+	}
+	if free {
+		// free-running (race detector) mode: notification delivery is part of the picture, wired as cmd/main.go does - the
+		// webhooks service with a registered webhook (a local target), so that deliveries of neighbouring headers overlap
+		target := httptest.NewServer(http.HandlerFunc(func(w http.ResponseWriter, r *http.Request) {
+			_, _ = io.Copy(io.Discard, r.Body)
+			posts.Add(1)
+			time.Sleep(300 * time.Microsecond) // a target that takes a moment: deliveries of neighbouring headers overlap
+			w.WriteHeader(200)
+		}))
+		defer target.Close()
+		_, _ = s.DB.Exec("DELETE FROM webhooks")
+		hookURL = target.URL + "/hook"
+		s.Svc.Notifier.AddChannel(s.Svc.Webhooks)
 	}
 	p := s.Cfg.P2P.GetNetParams()
 	bh := p.GenesisBlock.Header
@@ -217,6 +238,11 @@ func opConc() error {
 		}
 		if err := s.Reset(); err != nil {
 			return err
+		}
+		if free {
+			if _, err := s.Svc.Webhooks.CreateWebhook("bearer", "", "tok", hookURL); err != nil {
+				return fmt.Errorf("HARNESS-ERROR webhook registration: %v", err)
+			}
 		}
 		for _, i := range base {
 			if _, err, crashed := SafeAdd(s.Svc.Chains, c.Source(i)); err != nil || crashed != "" {
@@ -407,6 +433,7 @@ func opConc() error {
 		stats["scenarios"]++
 		stats["concurrent-headers"] += len(conc)
 	}
+	stats["webhook-posts"] = int(posts.Load())
 	js, _ := json.Marshal(stats)
 	return os.WriteFile(os.Getenv("VERIF_OUT")+".stats", js, 0o644)
 }
